@@ -118,6 +118,37 @@ var genericTypeArgs = []string{"int", "string", "float64", "N", "F", "[]int", "S
 // GenericProgram draws a program with one statement that calls or references a generic function.
 func GenericProgram(t *rapid.T) (src string, feats []string) {
 	pick := func(label string, xs []string) string { return xs[rapid.IntRange(0, len(xs)-1).Draw(t, label)] }
+	if rapid.IntRange(0, 7).Draw(t, "partial-scenario") == 0 {
+		// Partial instantiation: the first type argument is given, the rest follows from its core type
+		// and must then satisfy its own constraint (SumS[[]string] fails E ~int|~float64).
+		f := pick("pfn", []string{"SumS", "App", "Filter", "Keys"})
+		targs := []string{"[]int", "[]float64", "SL", "[]string", "[]uint", "[]N", "[]F", "int", "map[string]int", "MP"}
+		if f == "Keys" {
+			targs = []string{"map[string]int", "MP", "map[[]int]int", "[]int", "map[N]string"}
+		}
+		inst := f + "[" + pick("ptarg", targs) + "]"
+		feats = append(feats, "explicit-partial", "partial-with-core-type-inference")
+		var stmt string
+		switch rapid.IntRange(0, 3).Draw(t, "pform") {
+		case 0:
+			stmt = "g := " + inst + "\n\t_ = g"
+			feats = append(feats, "function-value")
+		case 1:
+			arg := pick("parg", []string{"vxs", "vsl", "vss", "vmp", "vm", "nil", "[]float64{1}"})
+			extra := ""
+			if f == "Filter" {
+				extra = ", " + pick("pfarg", []string{"vfib", "nil", "func(x string) bool { return true }"})
+			}
+			stmt = "r := " + inst + "(" + arg + extra + ")\n\t_ = r"
+		case 2:
+			stmt = "r := Id(" + inst + ")\n\t_ = r"
+			feats = append(feats, "partial-inst-function-arg")
+		default:
+			stmt = "var g func([]float64) float64 = " + inst + "\n\t_ = g"
+			feats = append(feats, "assign-to-typed-func-var")
+		}
+		return GenericPrelude + fmt.Sprintf("func f() {\n\t%s\n}\n", stmt), feats
+	}
 	fn := genericFns[rapid.IntRange(0, len(genericFns)-1).Draw(t, "fn")]
 	callee := fn.name
 	// explicit (full or partial) instantiation
